@@ -72,10 +72,17 @@ def r1_who_may_emit(run, w, RID, with_adds=False, extras_rule=None):
            "convert_action_values / enumerated raw sources; convert_action_values runs "
            "prepare_new_values for every written column and its adjustments are all applied",
            floor=18)
-  H.who_may_emit(run, w, RID, "a write that skips prepare_new_values skips the reverse-column "
-                 "and position adjustments")
-  convert_calls_prepare(run, w, RID, with_adds)
-  extras_applied(run, w, extras_rule or RID)
+  errs = []
+  for part in (lambda: H.who_may_emit(run, w, RID, "a write that skips prepare_new_values skips "
+                                      "the reverse-column and position adjustments"),
+               lambda: convert_calls_prepare(run, w, RID, with_adds),
+               lambda: extras_applied(run, w, extras_rule or RID)):
+    try:
+      part()
+    except AnalysisError as e:
+      errs.append(e)        # the other parts still report what they see
+  if errs:
+    raise errs[0]
 
 
 def _action_field(r, p_action, i, fields):
@@ -158,12 +165,23 @@ def convert_calls_prepare(run, w, RID, with_adds):
     wit = None
     if ext and not ok:
       wit = cfg.describe_path(cfg.path(n.id, {lid, cfg.exit.id}, removed=ext, after=True))
+    if not ext:
+      # never added here: dropped (a violation), or handed to code this rule does not read?
+      adj_uses = H.uses_of(fn, flow, lambda r: r.kind == "call" and r.node is c and
+                           r.path[:1] == (("idx", 1),))
+      via = H.handed_to_unknown(fn, flow, adj_uses)
+      if via:
+        raise AnalysisError("convert_action_values: cannot follow the adjustments of %s "
+                            "through %s" % (short(c, 50), via))
     run.ob(RID, fn.qualname, short(c), "the adjustments returned by prepare_new_values are added "
            "to the returned extra actions in the same iteration on every path", ok, witness=wit,
            fi=fn.fi, node=c)
     # row ids handed to the column are the action's row ids
     rs = flow.roots(c.args[0], n.id) if c.args else []
     ok = bool(rs) and all(_action_field(r, p_action, 1, fields) for r in rs)
+    if not ok and any(r.kind in ("call", "unknown", "global") for r in rs):
+      raise AnalysisError("convert_action_values: cannot tell which rows %s receives"
+                          % short(c, 60))
     run.ob(RID, fn.qualname, "%s(<row ids>)" % short(c.func), "prepare_new_values receives the "
            "row ids of the action", ok, fi=fn.fi, node=c)
     it_roots = flow.roots(loop.iter, lid)
@@ -192,6 +210,13 @@ def convert_calls_prepare(run, w, RID, with_adds):
           rs = flow.roots(s.value, m.id)
           okv = okv or (bool(rs) and all(r.kind == "call" and r.node is c and
                                          r.path == (("idx", 0),) for r in rs))
+      if not okv:
+        val_uses = H.uses_of(fn, flow, lambda r: r.kind == "call" and r.node is c and
+                             r.path[:1] == (("idx", 0),))
+        via = H.handed_to_unknown(fn, flow, val_uses)
+        if via:
+          raise AnalysisError("convert_action_values: cannot follow the prepared values of %s "
+                              "through %s" % (short(c, 50), via))
       run.ob(RID, fn.qualname, "new_values[col_id] = <values returned by prepare_new_values>",
              "the converted action carries the prepared values", okv, fi=fn.fi, node=loop)
     elif with_adds:
@@ -284,6 +309,17 @@ def extras_applied(run, w, RID):
     ok = bool(loops) and all(cfg.dominated_by(m, loops) for m in main) and \
         not (cfg.reach_after(main) & loops)
     wit = None
+    if not loops:
+      # not applied by a loop here: dropped (a violation), or handed to code we do not read /
+      # applied in a form we do not recognise?
+      def is_extra(r):
+        return r.kind == "call" and H._is_convert(r.node, flow.call_name(r.node)) and \
+            r.path[:1] == (("idx", 1),)
+      ex_uses = H.uses_of(fn, flow, is_extra)
+      via = H.handed_to_unknown(fn, flow, ex_uses, known=lambda call: endswith(
+        fn.name(call), "_do_extra_doc_action", "_do_doc_action"))
+      if via:
+        raise AnalysisError("%s: cannot follow the adjustment actions through %s" % (q, via))
     if loops and not ok:
       for m in main:
         p = cfg.path(cfg.entry.id, {m}, removed=loops)
@@ -409,6 +445,10 @@ def r2_prepare(run, w):
          "adjustments are computed for the rows being written",
          is_rows(flow.roots(b[cp[0]], gn.id)), fi=fn.fi, node=gc)
   els = H.elements(fn, flow, b[cp[1]], gn.id)
+  if els is None and any(r.kind in ("call", "unknown", "global")
+                         for r in flow.roots(b[cp[1]], gn.id)):
+    raise AnalysisError("prepare_new_values: cannot follow how the old values %s are read"
+                        % short(b[cp[1]]))
   ok = bool(els)
   for el in els or []:
     okr = len(el.gens) == 1 and not el.conds and isinstance(el.gens[0][0], ast.Name) and \
@@ -495,12 +535,16 @@ def r2_prepare(run, w):
       break
     cur = up
   wit = None
+  if lv is None or driver is None:
+    raise AnalysisError("prepare_new_values: cannot tell for which reverse columns %s is built"
+                        % short(a2a, 60))
   emit_ok = driver is not None and is_rc(driver[0], driver[1])
   if driver is not None and not emit_ok:
     wit = "loop iterates %s, not every registered reverse column" % short(driver[0])
-  pit = _pairs_through_list_to_value(H.resolve(flow, a_pairs, an), lv) if lv else None
+  pit = _pairs_through_list_to_value(H.resolve(flow, a_pairs, an), lv, strict=True) if lv \
+      else None
   if emit_ok:
-    emit_ok = pit is not None and is_ra(pit, an)
+    emit_ok = pit not in (None, False) and is_ra(pit, an)
     if not emit_ok:
       wit = "pairs %s" % short(a_pairs)
   if emit_ok:
@@ -530,6 +574,11 @@ def r2_prepare(run, w):
       if recv is not None and _same_object(flow, recv, an, v.elts[1], rn):
         got = True
     if not got:
+      if not (isinstance(v, ast.Tuple) and len(v.elts) == 2) or \
+          any(r.kind in ("call", "unknown", "param", "global")
+              for r in flow.roots(v.elts[1], rn)):
+        raise AnalysisError("prepare_new_values: cannot follow what return %s hands back"
+                            % short(case.value))
       deliv_ok = False
       wit = wit or "return %s does not hand back the reverse-column updates" % short(case.value)
   run.ob(R2, fn.qualname, "for reverse_col in <reverse cols>: adjustments.append("
@@ -551,10 +600,12 @@ def r2_prepare(run, w):
       okr = False
       for case in H.value_cases(mfn, mflow, rn.stmt.value, rn.id) if rn.stmt.value is not None \
           else []:
-        v = case.value
+        v = H.resolve(mflow, case.value, rn.id)
         okr = isinstance(v, ast.Call) and isinstance(v.func, ast.Attribute) and \
             v.func.attr == "prepare_new_values" and isinstance(v.func.value, ast.Call) and \
             dotted(v.func.value.func) == "super"
+        if not okr and isinstance(v, (ast.Call, ast.Name)):
+          raise AnalysisError("%s: cannot follow what %s returns" % (m.qualname, short(v)))
         if okr:
           bb = H.bind_args(v, fn.fi)
           okr = ps[1] in bb and ps[2] in bb and text(bb[ps[1]]) == mps[1] and \
@@ -567,24 +618,31 @@ def r2_prepare(run, w):
            "reverse adjustments are made)", ok, fi=m)
 
 
-def _pairs_through_list_to_value(pairs, colvar):
+def _pairs_through_list_to_value(pairs, colvar, strict=False):
   """For `[(row_id, <colvar>._list_to_value(value)) for (row_id, value) in <src>]` the <src>
-  expression; None for anything else."""
+  expression. Anything else: None -- or, with strict=True, False when it is positively a
+  comprehension of (row_id, <something else>) pairs, and AnalysisError when the construction is
+  not one this reader understands."""
+  def unknown(why):
+    if strict:
+      raise AnalysisError("cannot read how the (row, value) pairs are built: %s" % why)
+    return None
   if not (isinstance(pairs, ast.ListComp) and len(pairs.generators) == 1):
-    return None
+    return unknown(short(pairs) if pairs is not None else "no pairs")
   g = pairs.generators[0]
-  if g.ifs:
-    return None
   if not (isinstance(g.target, ast.Tuple) and len(g.target.elts) == 2 and
           all(isinstance(e, ast.Name) for e in g.target.elts)):
-    return None
+    return unknown(short(pairs))
   rid, val = [e.id for e in g.target.elts]
   e = pairs.elt
-  if isinstance(e, ast.Tuple) and len(e.elts) == 2 and text(e.elts[0]) == rid and \
-      isinstance(e.elts[1], ast.Call) and text(e.elts[1].func) == colvar + "._list_to_value" and \
+  if not (isinstance(e, ast.Tuple) and len(e.elts) == 2 and text(e.elts[0]) == rid):
+    return unknown(short(pairs))
+  if g.ifs:
+    return False if strict else None
+  if isinstance(e.elts[1], ast.Call) and text(e.elts[1].func) == colvar + "._list_to_value" and \
       [text(a) for a in e.elts[1].args] == [val] and not e.elts[1].keywords:
     return g.iter
-  return None
+  return False if strict else None
 
 
 # --------------------------------------------------------------------------------------- R3
@@ -699,7 +757,9 @@ def r3_unique(run, w):
         a0, a1 = [b.get(x) for x in a2a_fi.params()[:2]]
         colvar = text(a0.value) if isinstance(a0, ast.Attribute) and a0.attr == "node" else None
         pairs = H.resolve(fl2, a1, fl2.node_of(c)) if a1 is not None else None
-        ok = colvar is not None and _pairs_through_list_to_value(pairs, colvar) is not None
+        if colvar is None:
+          raise AnalysisError("%s: cannot tell which column %s writes" % (q, short(c, 60)))
+        ok = _pairs_through_list_to_value(pairs, colvar, strict=True) is not False
         run.ob(R3, q, short(c), "every value written to the reverse column is produced by that "
                "same column's _list_to_value (where the uniqueness test lives)", ok, fi=f2.fi,
                node=c)
@@ -826,8 +886,14 @@ def r4_rebuild(run, w):
     # the (target row, referring rows) pairs: one per row of the target table, unconditionally
     src = None
     if isinstance(a0, ast.Attribute) and a0.attr == "node" and a1 is not None:
-      src = _pairs_through_list_to_value(H.resolve(flow, a1, an), text(a0.value))
-    els = H.elements(fn, flow, src, an) if src is not None else None
+      src = _pairs_through_list_to_value(H.resolve(flow, a1, an), text(a0.value), strict=True)
+    if src is None:
+      raise AnalysisError("recalc_from_reverse_values: cannot read the rebuilt action %s"
+                          % short(a2a[0], 70))
+    els = H.elements(fn, flow, src, an) if src is not False else []
+    if els is None:
+      raise AnalysisError("recalc_from_reverse_values: cannot follow how %s is filled"
+                          % short(src))
     ok = bool(els)
     for el in els or []:
       okr = len(el.gens) == 1 and isinstance(el.gens[0][0], ast.Name) and not el.conds and \
@@ -850,12 +916,20 @@ def r4_rebuild(run, w):
       for r in rs:
         okr = r.kind == "call" and _xname(fn, r.node.func) == "self._target_table.get_column" and \
             len(r.node.args) == 1 and not r.path
+        if not okr and r.kind in ("call", "unknown", "param", "global"):
+          raise AnalysisError("recalc_from_reverse_values: cannot tell which column %s is"
+                              % short(a0.value))
         if okr:
           ks = flow.roots(r.node.args[0], r.nid)
-          okr = bool(ks) and all(k.kind == "param" and k.node == "self" and
-                                 k.path == (("attr", "_reverse_source_node"), ("idx", 1))
+          nf = H.namedtuple_fields(w, "depend.Node")
+          okr = bool(ks) and all(k.kind == "param" and k.node == "self" and len(k.path) == 2 and
+                                 k.path[0] == ("attr", "_reverse_source_node") and
+                                 H.field_step(k.path[1], nf) == ("idx", nf.index("col_id"))
                                  for k in ks)
         ok_col = ok_col and okr
+  if len(a2a) != 1:
+    raise AnalysisError("recalc_from_reverse_values: expected one _adjustments_to_action call, "
+                        "found %d" % len(a2a))
   run.ob(R4, fn.qualname, "for target_row_id in self._target_table.row_ids: "
          "get_affected_rows((target_row_id,))", "the rebuild recomputes the reverse cell of every "
          "row of the target table from this column's relation", ok, witness=wit, fi=fn.fi)
